@@ -373,6 +373,36 @@ fn fe_peak(fe: &str, n: u64) -> usize {
     }
 }
 
+/// run a command with a deadline (the child is killed afterwards); None = did not finish
+pub fn output_deadline(cmd: &mut std::process::Command, secs: u64) -> Option<std::process::Output> {
+    use std::io::Read;
+    let mut child = cmd.stdout(std::process::Stdio::piped()).stderr(std::process::Stdio::piped()).spawn().ok()?;
+    let t0 = std::time::Instant::now();
+    loop {
+        match child.try_wait() {
+            Ok(Some(status)) => {
+                let (mut o, mut e) = (vec![], vec![]);
+                if let Some(mut x) = child.stdout.take() {
+                    let _ = x.read_to_end(&mut o);
+                }
+                if let Some(mut x) = child.stderr.take() {
+                    let _ = x.read_to_end(&mut e);
+                }
+                return Some(std::process::Output { status, stdout: o, stderr: e });
+            }
+            Ok(None) => {
+                if t0.elapsed().as_secs() > secs {
+                    let _ = child.kill();
+                    let _ = child.wait();
+                    return None;
+                }
+                std::thread::sleep(std::time::Duration::from_millis(5));
+            }
+            Err(_) => return None,
+        }
+    }
+}
+
 pub fn bang(r: &mut Runner, line: &str) {
     let t: Vec<&str> = line.split(' ').filter(|x| !x.is_empty()).collect();
     match t[0] {
@@ -458,7 +488,13 @@ pub fn bang(r: &mut Runner, line: &str) {
             if prev > 0 {
                 cmd.arg("--force");
             }
-            let out = cmd.output().unwrap();
+            let out = match output_deadline(&mut cmd, 60) {
+                Some(o) => o,
+                None => {
+                    r.fail(format!("C07 C15 C08 C19 `fst {}` did not terminate within 60 s", what));
+                    return;
+                }
+            };
             for p in &tmp_inputs {
                 let _ = std::fs::remove_file(p);
             }
@@ -517,14 +553,20 @@ pub fn bang(r: &mut Runner, line: &str) {
                 }
                 std::fs::write(&inp, &text).unwrap();
                 for again in 0..2 {
-                    let out = std::process::Command::new(&bin)
-                        .arg(what)
+                    let mut c = std::process::Command::new(&bin);
+                    c.arg(what)
                         .arg(&inp)
                         .arg(&outp)
                         .args(&["--force", "--keep-tmp-dir", "--batch-size", "7", "--fd-limit", "3", "--threads", "2"])
-                        .env("TMPDIR", &dir)
-                        .output()
-                        .unwrap();
+                        .env("TMPDIR", &dir);
+                    let out = match output_deadline(&mut c, 60) {
+                        Some(o) => o,
+                        None => {
+                            r.fail(format!("C19 `fst {}` unsorted (run #{}) did not terminate within 60 s", what, round + 1));
+                            let _ = std::fs::remove_dir_all(&dir);
+                            return;
+                        }
+                    };
                     let label = format!("`fst {}` unsorted, run #{}{} in the same temp directory with --keep-tmp-dir --force", what, round + 1, if again == 1 { " (repeated)" } else { "" });
                     if !out.status.success() {
                         r.fail(format!("C19 {} exited with {:?}: {}", label, out.status.code(), String::from_utf8_lossy(&out.stderr).chars().take(300).collect::<String>()));
